@@ -11,6 +11,7 @@ import (
 	"strings"
 	"sync"
 	"sync/atomic"
+	"time"
 
 	_ "github.com/mattn/go-sqlite3"
 )
@@ -36,8 +37,10 @@ type sqlController struct {
 	enabled bool
 	seq     int
 	log     []sqlStmtRec
-	failAt  int // fail the k-th statement (1-based) with errSQLInjected
-	crashAt int // os.Exit(77) right before the k-th statement
+	failAt  int   // fail the k-th statement (1-based) with errSQLInjected
+	failAll bool  // persistent: every statement from the failAt-th on fails
+	failErr error // the error of the injected failure (default errSQLInjected)
+	crashAt int   // os.Exit(77) right before the k-th statement
 	keepSQL bool
 	// table fault: the first INSERT/DELETE on failTable fails
 	failTable  string
@@ -50,7 +53,21 @@ var connIDs int64
 
 func (c *sqlController) begin(failAt, crashAt int) {
 	c.mu.Lock()
-	c.enabled, c.seq, c.log, c.failAt, c.crashAt = true, 0, nil, failAt, crashAt
+	c.enabled, c.seq, c.log, c.failAt, c.crashAt, c.failAll, c.failErr = true, 0, nil, failAt, crashAt, false, nil
+	c.mu.Unlock()
+}
+
+// beginBusy: the k-th statement fails once the way SQLite reports a lock conflict (transaction layers retry on it)
+func (c *sqlController) beginBusy(failAt int) {
+	c.mu.Lock()
+	c.enabled, c.seq, c.log, c.failAt, c.crashAt, c.failAll, c.failErr = true, 0, nil, failAt, 0, false, errors.New("database is locked")
+	c.mu.Unlock()
+}
+
+// beginPersistent: every statement from the k-th on fails (the database went away)
+func (c *sqlController) beginPersistent(failFrom int) {
+	c.mu.Lock()
+	c.enabled, c.seq, c.log, c.failAt, c.crashAt, c.failAll, c.failErr = true, 0, nil, failFrom, 0, true, nil
 	c.mu.Unlock()
 }
 
@@ -113,8 +130,11 @@ func (c *sqlController) gate(conn int, kind, table, q string, nargs int) (int, e
 		os.Exit(77)
 	}
 	var err error
-	if c.failAt != 0 && k == c.failAt && kind != "ROLLBACK" {
+	if c.failAt != 0 && (k == c.failAt || (c.failAll && k > c.failAt)) && kind != "ROLLBACK" {
 		err = errSQLInjected
+		if c.failErr != nil {
+			err = c.failErr
+		}
 	}
 	if c.failTable != "" && !c.tableFired && table == c.failTable && (kind == "INSERT" || kind == "DELETE") {
 		c.tableFired = true
@@ -126,6 +146,34 @@ func (c *sqlController) gate(conn int, kind, table, q string, nargs int) (int, e
 	}
 	c.log = append(c.log, r)
 	return k, err
+}
+
+// slow database: while slowFor > 0 every query waits until the context IT WAS GIVEN is done (then fails with that
+// context's error, like a driver does), or for slowFor. A statement issued under the request's context costs nothing once the
+// request is cancelled; one issued under some other context keeps its goroutine for slowFor.
+var sqlSlowFor atomic.Int64
+
+func sqlSlow(ctx context.Context) error {
+	d := time.Duration(sqlSlowFor.Load())
+	if d <= 0 {
+		return nil
+	}
+	// a statement that carries the context of a request that is still live is never slowed down (a straggler of an earlier,
+	// cancelled run may have switched the slowness on)
+	if rs, _ := ctx.Value(rsKeyT{}).(*runState); rs != nil {
+		rs.mu.Lock()
+		live := !rs.cancelled
+		rs.mu.Unlock()
+		if live && ctx.Err() == nil {
+			return nil
+		}
+	}
+	select {
+	case <-ctx.Done():
+		return ctx.Err()
+	case <-time.After(d):
+		return nil
+	}
 }
 
 type wDriver struct{ base driver.Driver }
@@ -152,6 +200,9 @@ func (c *wConn) ExecContext(ctx context.Context, q string, args []driver.NamedVa
 }
 
 func (c *wConn) QueryContext(ctx context.Context, q string, args []driver.NamedValue) (driver.Rows, error) {
+	if err := sqlSlow(ctx); err != nil {
+		return nil, err
+	}
 	kind, table := classify(q)
 	if _, err := sqlCtl.gate(c.id, kind, table, q, len(args)); err != nil {
 		return nil, err
